@@ -174,7 +174,7 @@ define_ops! {
 }
 
 dispatch_widths!(dispatch, call, Op;
-    0, 1, 7, 8, 9, 16, 60, 63, 64, 65, 120, 127, 128, 129, 160, 250, 255, 256, 257, 384, 440, 441, 448, 512, 528, 535, 1024);
+    0, 1, 7, 8, 9, 16, 60, 63, 64, 65, 120, 127, 128, 129, 160, 250, 255, 256, 257, 384, 440, 441, 448, 512, 528, 535, 1024, 524352);
 
 fn u(v: &BigUint, bits: usize) -> V {
     V::U(to_limbs(v, bits))
@@ -697,8 +697,27 @@ fn c16(r: &Runner) {
             }
         });
     }
-    for t in 0..PG_TYPES.len() {
-        let _ = t;
+    // one GIANT width (524 352 bits = 65 544 bytes: lengths no longer fit 16 bits): the length-carrying encoders and their
+    // round trips on values at and around the 65 535 / 65 536 byte boundary
+    {
+        let bits = 524_352usize;
+        let vals: Vec<BigUint> = vec![BigUint::zero(), BigUint::from(200u32), pow2(8 * 65_534) - 1u32, pow2(8 * 65_535 - 1), pow2(8 * 65_535) - 1u32, pow2(8 * 65_535), pow2(8 * 65_536 - 1), pow2(8 * 65_536), pow2(bits) - 1u32];
+        r.universe(&format!("GIANT width {bits}: {} values around the 2^16-byte boundary, length-carrying encoders and round trips", vals.len()), bits, vals.len(), |i, l| {
+            let a = u(&vals[i], bits);
+            l.states(1);
+            for op in [Op::rlp_enc, Op::alloy_enc, Op::fastrlp03_enc, Op::fastrlp04_enc, Op::scale_enc, Op::ssz_enc, Op::borsh_enc, Op::der_enc, Op::der_any_enc, Op::bincode_enc, Op::json_enc] {
+                exec(l, bits, op, &[a.clone()]);
+            }
+            let v = &vals[i];
+            let nb = (bits + 7) / 8;
+            let some = V::some(a.clone());
+            for (op, input, cursor) in [(Op::rlp_dec, rc::rlp(v), false), (Op::alloy_dec, rc::rlp(v), true), (Op::fastrlp04_dec, rc::rlp(v), true), (Op::der_dec, rc::der(v), false), (Op::ssz_dec, rc::fixed_le(v, nb), false), (Op::borsh_dec, rc::fixed_le(v, nb), false), (Op::bincode_dec, rc::bincode(v, nb), false), (Op::scale_dec, rc::scale_bytes(&rc::fixed_le(v, nb)), true)] {
+                let args = [V::Bytes(input.clone())];
+                let got = l.guard(op.name(), op.src(), bits, &args, || dispatch(bits, op, &args));
+                let e = if cursor { is(V::T(vec![some.clone(), V::n(input.len())])) } else { is(some.clone()) };
+                l.record(op.name(), op.src(), bits, &args, got, e.nt(true));
+            }
+        });
     }
     r.universe_seq("postgres accepts()", 256, |l| {
         for t in 0..PG_TYPES.len() {
